@@ -32,6 +32,9 @@ for a in sorted(os.listdir(root)):
         mm = re.search(r'(?is)(needs to manifest|what is needed|manifest[s]?( only)?( when)?)[:\s](.{20,600}?)(\n\n|\Z)', notes)
         if mm: needs = ' '.join(mm.group(0).split())[:700]
         dets = det.get(d, [])
+        if not dets and os.path.exists(f'{dst}/meta.json'):
+            old = json.load(open(f'{dst}/meta.json')).get('detection', [])
+            dets = [{'check': x['check'], 'rc': x['exit'], 'signatures': ';'.join(x['violation_signatures']), 'false_alarm_replays': x['replays_of_its_violations_that_fail_on_the_unchanged_tree'], 'runs': x['runs_before_stop']} for x in old]
         meta = {
             'id': sid, 'property': m.group(1), 'title': title,
             'needs_to_manifest': needs or 'see NOTES.md',
@@ -46,8 +49,14 @@ for a in sorted(os.listdir(root)):
         }
         json.dump(meta, open(f'{dst}/meta.json', 'w'), indent=1)
         index.append((sid, m.group(1), title, [(x['check'], x['rc']) for x in dets]))
+index = []
+for sid in sorted(os.listdir(out)):
+    mp = f'{out}/{sid}/meta.json'
+    if os.path.exists(mp):
+        mt = json.load(open(mp))
+        index.append((sid, mt['property'], mt['title'], [(x['check'], x['exit']) for x in mt['detection']]))
 with open(f'{out}/INDEX.md', 'w') as f:
     f.write('# Seeded property-breaking changes\n\nEach directory: patch.diff (against /repo at b4c0a10), the demonstration, the author\'s notes, meta.json.\nNone of these is ever committed to /repo. Re-run one with `tools/try_mutant.sh seeded/<id>/patch.diff <ID> quick`.\n\n| id | property | change | detected by (quick) |\n|---|---|---|---|\n')
     for sid, p, t, ds in index:
         f.write(f'| {sid} | {p} | {t[:110]} | {", ".join(c for c, rc in ds if rc == 1) or "-"} |\n')
-print(len(index), 'kept')
+print(len(index), 'in index')
